@@ -13,9 +13,65 @@ META = dict(
         'that it FINDS the planted vector is assumed, not proved',
     ],
     assumptions=[
-        'pollard_flag is proved for all primes/m/bounds; lattice families: fraction_post '
-        '(good row => both primes) + C01 soundness; low-Hamming-weight: threshold logic only',
+        'pollard_flag is proved for all primes/m/bounds with g | m as a hypothesis; g | m is characterised exactly for '
+        'the constructor product with the DOCUMENTED exponents (C05Pollard defaultM_dvd_iff / userM_dvd_iff); lattice '
+        'families: pre/post sandwich around the LLL oracle + C01 soundness; CF and low-Hamming-weight clauses: no '
+        'completeness theorem. The completeness clauses are EVALUATED on the implementation for planted members of every '
+        'family named by the property (bit patterns, permuted limbs, two patterned primes, Hamming weight up to 32, shared '
+        'prime-power factors): inside the property region (sizes >= 1024 bits; w <= bitlen/16 and <= 32 low bits; implied '
+        'denominator <= bitlen/10; words <= 64 bits) a miss is a VIOLATION; the region was measured beforehand on the real '
+        'code (15 783 bit-pattern, 899 permuted, 2 881 two-pattern, 136 low-weight keys at 1024..4096 bits: no miss '
+        'inside the region; permuted limbs with bitlen/10 < bits(denominator) <= bitlen/8: 42 of 129 missed - outside the '
+        'property, statistics only; two-pattern keys: all flagged, 2 120 of 2 881 also factored; low-weight keys: all flagged, '
+        '75 of 136 also factored); extra.planted records the statistics of every run',
     ])
+
+DEFAULT_PS = list(range(1, 16, 2)) + [31, 63, 127, 255, 511] + [8, 16, 32, 64, 128, 256]
+
+
+def floor_log(r, b):
+  e = 0
+  while r ** (e + 1) <= b:
+    e += 1
+  return e
+
+
+def product_exponent(bound, r):
+  """documented exponent of the prime r in the product CheckPollardpm1(bound) builds
+  (C05Pollard defaultM_dvd_iff / userM_dvd_iff)."""
+  if bound:
+    return floor_log(r, bound) if r < bound else 0
+  if r < 864:
+    return floor_log(r, 2**64)
+  return 1 if r < 2**20 else 0
+
+
+def divides_by_criterion(gfac, bound):
+  return all(k <= product_exponent(bound, r) for r, k in gfac)
+
+
+def verdict_factors(v):
+  parts = v.split(' ')
+  if len(parts) < 3 or parts[0] != 'ok' or parts[2] == '[]':
+    return []
+  return [int(x, 16) for x in parts[2].split(',')]
+
+
+class Planted:
+  """statistics of the planted families; `miss` inside the guaranteed region is a violation."""
+
+  def __init__(self, rep):
+    self.rep = rep
+    rep.extra.setdefault('planted', {})
+
+  def record(self, family, in_region, ok, n):
+    st = self.rep.extra['planted'].setdefault(
+        family, dict(region=('guaranteed' if in_region else 'statistics-only'), n=0, hit=0, misses=[]))
+    st['n'] += 1
+    if ok:
+      st['hit'] += 1
+    elif len(st['misses']) < 5:
+      st['misses'].append('%x' % n)
 
 
 def fw_prod(xs):
@@ -52,10 +108,31 @@ class LllRecorder:
     self.rsa_util.lll.reduce = self.real
 
 
+def _lhw_default(n):
+  """worker: the real CheckLowHammingWeight check object with its DEFAULT cutoff / maxsteps."""
+  from paranoid_crypto.lib import rsa_single_checks as rs
+  return art.fmt_verdict(rs.CheckLowHammingWeight(), n)
+
+
 def correspondence(rep, rng, tier):
   from paranoid_crypto.lib import rsa_single_checks as rs, rsa_util, ntheory_util
   from paranoid_crypto import paranoid_pb2
+  import multiprocessing as mp
   reps = 2 if tier == 'quick' else 8
+
+  # ---------------- "both primes have Hamming weight at most 32": default cutoff / maxsteps take up
+  # to ~12 s per key on the real code, so the keys are generated first and evaluated in a small
+  # process pool while the rest of the correspondence runs (results are collected at the end).
+  lhw_plan = [(1024, 16), (1024, 32)] if tier == 'quick' else \
+      [(bits, wt) for bits in (1024, 2048) for wt in (8, 16, 24, 28, 31, 32)] + [(3072, 32), (4096, 32)]
+  lhw_keys = []
+  for bits, wt in lhw_plan:
+    p_ = gen_rsa.exact_weight_prime(rng, bits // 2, wt)
+    q_ = gen_rsa.exact_weight_prime(rng, bits // 2, wt)
+    if p_ and q_ and p_ != q_:
+      lhw_keys.append((bits, wt, p_ * q_))
+  lhw_pool = mp.Pool(min(4, max(1, len(lhw_keys))))
+  lhw_async = lhw_pool.map_async(_lhw_default, [k[2] for k in lhw_keys])
 
   # ---------------- CheckBitPatterns / CheckPermutedBitPatterns
   fams = []
@@ -71,6 +148,37 @@ def correspondence(rep, rng, tier):
       fams.append(('healthy', p * q, None))
     for t, n in gen_rsa.degenerate(rng, bits)[:5]:
       fams.append((t, n, None))
+
+  # planted members of the family the property GUARANTEES: one prime = a w-bit word written from
+  # the top and cut to the prime's length (gen_rsa.periodic_prime == Lean Permuted.periodicTop),
+  # w in the default list, w <= bitlen(n)/16, at most 32 deviating low-order bits, n of 1024..4096
+  # bits. guaranteed[n] = word size; a miss there is a violation (pred below).
+  planted = Planted(rep)
+  guaranteed = {}
+  qpool = {}
+
+  def cofactor(bits):
+    pool = qpool.setdefault(bits, [])
+    if len(pool) < 3:
+      pool.append(gen_rsa.rprime(rng, bits))
+    return rng.choice(pool)
+  if tier == 'quick':
+    plan = [(1024, w, 1) for w in DEFAULT_PS if w <= 64] + [(2048, w, 1) for w in rng.sample(
+        [w for w in DEFAULT_PS if w <= 128], 3)] + [(4096, rng.choice([255, 256, 127]), 1)]
+  else:
+    plan = [(bits, w, 3 if bits <= 2048 else 1) for bits in (1024, 1536, 2048, 3072, 4096)
+            for w in DEFAULT_PS if w <= bits // 16]
+  for bits, w, cnt in plan:
+    for _ in range(cnt):
+      t = rng.choice([0, 1, 7, 16, 24, 31, 32, 32])
+      r = gen_rsa.periodic_prime(rng, bits // 2, w, t, attempts=4) or \
+          gen_rsa.periodic_prime(rng, bits // 2, w, 32, attempts=8)
+      if r is None:
+        rep.notes.append('no planted pattern prime for bits=%d w=%d' % (bits, w))
+        continue
+      n = r[0] * cofactor(bits // 2)
+      guaranteed[n] = w
+      fams.append(('planted-w%d' % w, n, r[0]))
 
   # recover d0 for each recorded lattice: x = 2^bitlen(d0), third entry = u*d0 % w — the
   # check passes d explicitly, so wrap CheckFraction to record it.
@@ -103,20 +211,35 @@ def correspondence(rep, rng, tier):
   default_ps = None
   user_lists = [None, [8, 16], [16, 8, 8, 3], [], [600, 1, 2], [5]]
   for tag, n, p in fams:
-    for ps in (user_lists if tier == 'thorough' else user_lists[:3]):
+    lists = (user_lists if tier == 'thorough' else user_lists[:3])
+    if n in guaranteed:
+      # big planted keys: the default list, and one user list that contains the word size
+      lists = [None, [600, guaranteed[n], 2]]
+    for ps in lists:
       chk = rs.CheckBitPatterns(ps)
       v, calls = run_with_recording(chk, n)
       ps_eff = ps
       if ps is None:
         ps_eff = list(range(1, 16, 2)) + [31, 63, 127, 255, 511] + [8, 16, 32, 64, 128, 256]
 
-      def pred(n=n, p=p, v=v):
-        # completeness clause on the implementation: planted pattern prime => flagged+factored
-        if p is not None and not v.startswith('ok 1'):
-          return None  # reported through the family statistics, LLL success is not claimed
+      hit = p is not None and p in verdict_factors(v)
+      in_region = n in guaranteed and guaranteed[n] in ps_eff
+      if p is not None:
+        planted.record('bitpattern/%s/%dbit%s' % (tag if n in guaranteed else tag.rstrip('0123456789') + '-legacy',
+                                                  n.bit_length(), '' if ps is None else '/userlist'),
+                       in_region, hit, n)
+
+      def pred(n=n, p=p, v=v, hit=hit, in_region=in_region, w=guaranteed.get(n)):
+        # completeness clause evaluated on the implementation: a planted pattern prime inside the
+        # region the property guarantees must be flagged AND factored. (Outside the region —
+        # the legacy 256/512-bit families, word sizes not in the list — statistics only.)
+        if in_region and not hit:
+          return ('one prime is a repetition of a %d-bit word apart from <= 32 low bits, %d <= bitlen/16, the size is in '
+                  'the list, but CheckBitPatterns did not factor n=%x (verdict %s)' % (w, w, n, v[:40]))
         return None
       b.add('chk.bitpatterns %s %s %s' % (H(n), L(ps_eff), red_table(calls)), v,
-            tag=tag.rstrip('0123456789') + ':' + v[:4], canon=art.sort_model_verdict)
+            tag=tag.rstrip('0123456789') + ':' + v[:4], canon=art.sort_model_verdict,
+            pred=pred, always=in_region)
       if v.startswith('ok 0'):
         bd.add('chk.bitpatterns_ds %s %s' % (H(n), L(ps_eff)), L([d for d, _ in calls]),
                tag='enum')
@@ -136,6 +259,48 @@ def correspondence(rep, rng, tier):
           tag=tag.rstrip('0123456789') + ':' + v[:4], canon=art.sort_model_verdict)
     if v.startswith('ok 0'):
       bd.add('chk.permuted_ds %s' % H(n), L([d for d, _ in calls]), tag='enum')
+  # planted permuted-limb primes: a ps-bit word repetition whose adjacent ws-bit limbs are swapped
+  # (gen_rsa.swapped_prime == Lean Permuted.swapLimbs ∘ periodicTop; C05Permuted.permuted_is_fraction),
+  # apart from <= 32 low bits. Guaranteed by the property when the implied denominator has at most
+  # bitlen(n)/10 bits; for bitlen/10 < bits(D) <= bitlen/8 the check still tries D but the property
+  # promises nothing (measured: frequent misses) — statistics only.
+  combos = {}
+  for bits in (1024, 2048, 3072, 4096):
+    combos[bits] = []
+    for ws in (8, 16, 32, 64):
+      for ps in range(3, ws, 2):
+        dbits = gen_rsa.permuted_denominator(ws, ps).bit_length()
+        if dbits > bits // 8:
+          break
+        combos[bits].append((ws, ps, dbits))
+  if tier == 'quick':
+    pplan = [(1024, c) for c in combos[1024]] + [(2048, c) for c in rng.sample(combos[2048], 3)] + \
+            [(4096, rng.choice(combos[4096]))]
+  else:
+    pplan = [(bits, c) for bits in (1024, 2048, 3072, 4096) for c in combos[bits] for _ in range(2 if bits <= 2048 else 1)]
+  for bits, (ws, ps, dbits) in pplan:
+    t = rng.choice([0, 8, 16, 24, 32, 32])
+    r = gen_rsa.swapped_prime(rng, bits // 2, ps, ws, t, attempts=4) or \
+        gen_rsa.swapped_prime(rng, bits // 2, ps, ws, 32, attempts=8)
+    if r is None:
+      rep.notes.append('no planted swapped-limb prime for bits=%d ws=%d ps=%d' % (bits, ws, ps))
+      continue
+    p = r[0]
+    n = p * cofactor(bits // 2)
+    v, calls = run_with_recording(chk, n)
+    hit = p in verdict_factors(v)
+    in_region = dbits <= bits // 10
+    planted.record('permuted/%dbit/ws%d/ps%d/dbits%d' % (bits, ws, ps, dbits), in_region, hit, n)
+
+    def pred(n=n, hit=hit, in_region=in_region, ws=ws, ps=ps, dbits=dbits, v=v):
+      if in_region and not hit:
+        return ('one prime is a %d-bit word repetition with adjacent %d-bit limbs swapped (<= 32 low bits deviate), '
+                'implied denominator %d bits <= bitlen/10, but CheckPermutedBitPatterns did not factor n=%x (verdict %s)'
+                % (ps, ws, dbits, n, v[:40]))
+      return None
+    b.add('chk.permuted %s %s' % (H(n), red_table(calls)), v,
+          tag='planted-swapped%s:%s' % ('' if in_region else '-outside', v[:4]),
+          canon=art.sort_model_verdict, pred=pred, always=in_region)
   # enumeration of the denominators at every documented modulus size (cheap: 3x3 LLL each;
   # random odd numbers are enough, the loops do not depend on n being a semiprime)
   bitp = rs.CheckBitPatterns()
@@ -159,7 +324,8 @@ def correspondence(rep, rng, tier):
   import math
   bp = Batch('chk.pm1_product')
   be = Batch('chk.pm1_exps')
-  for bound in (None, 2**8, 2**10, 243, 1000, 3, 2):
+  # bound 0 is falsy: `if bound:` takes the DEFAULT branch (F20; Model pollardUserBound)
+  for bound in (None, 0, 2**8, 2**10, 243, 1000, 3, 2, 1):
     try:
       chkp = rs.CheckPollardpm1(bound)
     except Exception as e:  # noqa
@@ -225,22 +391,121 @@ def correspondence(rep, rng, tier):
           seen_.add(t_[0]); few_.append(t_)
       sm = [t_ for t_ in few_ if t_[0] in ('onesmooth', 'bothsmooth', 'healthy', 'shared58', 'shared60',
                                           'sharedboth', 'prime')]
-    for tag, n, sp in sm:
+    # shared factors that contain prime POWERS (F9): `power-in` = every prime power of g within the
+    # exponents of the product (g | m by C05Pollard userM_dvd_iff / defaultM_dvd_iff: must be flagged);
+    # `power-edge` = one exponent one too large on top of an admissible part >= 2^60 (g does not divide m,
+    # the gate still opens); `power-out` = g = r^K for one prime (2^20-smooth, >= 2^60, but only r^e_r
+    # divides m: the literal property text would demand a flag, the criterion does not).
+    pw = []
+    sb = (bound or 2**10).bit_length() - 1
+    small_pr = [int(x) for x in ntheory_util.Sieve(bound or 2**10)]
+    for rep_i in range(reps if bound else 1):
+      rng.shuffle(small_pr)
+      gin, acc = [], 2
+      for r_ in small_pr:
+        if acc >= 2**62:
+          break
+        k_ = product_exponent(bound, r_) - (1 if r_ == 2 else 0)   # p-1 = 2*g*...
+        k_ = min(k_, 40)
+        if k_ >= 1 and (k_ >= 2 or rng.random() < 0.5):
+          gin.append((r_, k_)); acc *= r_ ** k_
+      # one prime whose power >= 2^60 exceeds its exponent in the product (default product: a prime
+      # beyond the 150 raised ones, e.g. 1009^7 of C05Pollard.literal_text_fails)
+      r0 = rng.choice([3, 5, 7, 11, 13] if bound else [1009, 1013, 65537, 1048573])
+      gout = [(r0, floor_log(r0, 2**60) + 1)]
+      gedge = [(r_, k_ + (1 if i_ == 0 else 0)) for i_, (r_, k_) in enumerate(sorted(gin, key=lambda t: -t[0]))]
+      for fam_, gf_, qs_ in (('power-in', gin, False), ('power-in-both', gin, True), ('power-edge', gedge, False),
+                             ('power-out', gout, False)):
+        if bound is None and fam_ in ('power-in-both', 'power-edge'):
+          continue      # every gate-open key costs the model ~1-1.5 min with the default product
+        r = gen_rsa.shared_power_smooth(rng, 0, gf_, q_smooth=qs_, smooth_bits=sb)
+        if r is None:
+          rep.notes.append('no prime pair for pollard family %s bound=%r' % (fam_, bound))
+          continue
+        pw.append((fam_, r[0] * r[1], r[0], gf_))
+    if bound is None:
+      # the kernel-checked witnesses of Props/C05Pollard.lean (literal_text_fails, non-vacuity example)
+      pw.append(('literal-witness', 25553441901090092879257 * 2233202595329425274535519299,
+                 25553441901090092879257, [(1009, 7)]))
+    for tag, n, sp in sm + [(t_, n_, p_) for t_, n_, p_, _ in pw]:
+      gfac = dict((n_, gf_) for _, n_, _, gf_ in pw).get(n)
       v = art.fmt_verdict(chk, n)
 
-      def pred(n=n, sp=sp, m=m, v=v):
-        # Pollard clause evaluated on the implementation
+      def pred(n=n, sp=sp, m=m, v=v, gfac=gfac, bound=bound, tag=tag):
+        # the Pollard clause (C05.pollard_flag) evaluated exactly on the implementation, and the
+        # divisibility criterion of C05Pollard evaluated on the REAL product
         if sp is None:
           return None
         q = n // sp
-        g = math.gcd(sp - 1, q - 1)
-        g = math.gcd(g, m)
-        if g >= 2**60 and ((n - 1) * m) % (sp - 1) == 0 and not v.startswith('ok 1'):
-          return 'p-1 smooth and shared factor >= 2^60 but key not flagged: n=%x' % n
+        if gfac is not None:
+          g_ = 2 * fw_prod([r_ ** k_ for r_, k_ in gfac])
+          crit = divides_by_criterion([(2, 1 + dict(gfac).get(2, 0))] + [t_ for t_ in gfac if t_[0] != 2], bound)
+          if (m % g_ == 0) != crit:
+            return ('divisibility criterion fails on the real product of CheckPollardpm1(%r): g=%x, g | m is %s, '
+                    'exponent criterion says %s' % (bound, g_, m % g_ == 0, crit))
+          if tag == 'literal-witness' and v != 'ok 0 [] 0':
+            return 'C05Pollard.literal_text_fails proves (False, []) for this key, the implementation says %s' % v
+        g = math.gcd(math.gcd(sp - 1, q - 1), m)
+        fs = verdict_factors(v)
+        if g >= 2**60 and ((n - 1) * m) % (sp - 1) == 0:
+          if not v.startswith('ok 1'):
+            return 'p-1 smooth and shared factor >= 2^60 dividing m, but key not flagged: n=%x' % n
+          both = pow(2, (n - 1) * m, q) == 1
+          if both and fs:
+            return '2^((n-1)m) = 1 mod q as well, yet factors were reported: n=%x' % n
+          if not both and sorted(fs) != sorted([sp, q]):
+            return 'flagged but not factored although 2^((n-1)m) != 1 mod q: n=%x' % n
+        if math.gcd(n - 1, m) < 2**60 and v != 'ok 0 [] 0':
+          return 'gcd gate closed but verdict %s: n=%x' % (v, n)
         return None
       b.add('chk.pm1 %s $%s %s' % (H(n), name, H(2**60)), v, tag=tag + ':' + v[:4], pred=pred,
-            canon=art.sort_model_verdict)
+            canon=art.sort_model_verdict, always=True)
+      if gfac is not None:
+        st = rep.extra.setdefault('pollard_power_families', {}).setdefault(
+            '%s/bound=%s' % (tag, bound or 'default'), {})
+        st[v[:4]] = st.get(v[:4], 0) + 1
   rep.absorb(b, b.run())
+
+  # the default product on the implementation only (cheap in Python; the model needs 1-1.5 min per
+  # gate-open key with the 1.5 Mbit exponent, so model-vs-implementation for it is thorough-tier and
+  # limited to a few keys): the two kernel-checked witnesses and fresh power-in / power-edge /
+  # power-out keys, clause and criterion evaluated exactly.
+  if True:
+    chkd = rs.CheckPollardpm1()
+    md = int(chkd._m)
+    dstat = rep.extra.setdefault('pollard_default_impl_only', {})
+    cases = [('literal-witness', 25553441901090092879257, 2233202595329425274535519299, [(1009, 7)], 'ok 0 [] 0'),
+             ('power-in-witness', 8562318457488567634551083203943137586184193, 97583607849372129325744129,
+              [(2, 19), (3, 10), (863, 2), (1009, 1)], None)]
+    for fam_, gf_ in (('power-in', [(2, 30), (3, 20), (863, 6), (1009, 1), (1048573, 1)]),
+                      ('power-in', [(2, 63), (3, 2)]),
+                      ('power-edge', [(2, 30), (3, 25), (5, 10), (1009, 2)]),
+                      ('power-edge', [(2, 62), (3, 1), (863, 7)]),
+                      ('power-out', [(1009, 7)]), ('power-out', [(863, 7)]), ('power-out', [(3, 41), (5, 2)]),
+                      ('power-out', [(1048573, 4)])):
+      r = gen_rsa.shared_power_smooth(rng, 0, gf_, smooth_bits=10)
+      if r is not None:
+        cases.append((fam_, r[0], r[1], gf_, None))
+    for fam_, p_, q_, gf_, want in cases:
+      n_ = p_ * q_
+      v = art.fmt_verdict(chkd, n_)
+      g_ = 2 * fw_prod([r_ ** k_ for r_, k_ in gf_])
+      crit = divides_by_criterion([(2, 1 + dict(gf_).get(2, 0))] + [t_ for t_ in gf_ if t_[0] != 2], None)
+      problem = None
+      if (md % g_ == 0) != crit:
+        problem = 'criterion defaultM_dvd_iff fails on the real default product for g=%x' % g_
+      elif want is not None and v != want:
+        problem = 'kernel-checked verdict %s, implementation %s' % (want, v)
+      elif math.gcd(math.gcd(p_ - 1, q_ - 1), md) >= 2**60 and ((n_ - 1) * md) % (p_ - 1) == 0:
+        both = pow(2, (n_ - 1) * md, q_) == 1
+        if not v.startswith('ok 1') or (not both and sorted(verdict_factors(v)) != sorted([p_, q_])):
+          problem = 'a shared factor >= 2^60 divides the default product, p-1 smooth enough, but verdict %s' % v
+      key = '%s:%s:%s' % (fam_, 'g|m' if crit else 'g∤m', v[:4])
+      dstat[key] = dstat.get(key, 0) + 1
+      rep.evaluations += 1
+      if problem:
+        rep.violations.append(dict(op='chk.pm1(default, implementation only)', line='n=%x' % n_, what=problem,
+                                   impl=v, model=None, info=None))
 
   # ---------------- CheckLowHammingWeight (cutoff/maxsteps are fixed by the check: use small n)
   b = Batch('chk.lhw')
@@ -269,6 +534,23 @@ def correspondence(rep, rng, tier):
         rsa_util.CheckLowHammingWeight = real_lhw
       b.add('chk.lhw %s %s %s' % (H(n), H(cutoff), H(maxsteps)), v, tag=tag + ':' + v[:8],
             canon=art.sort_model_verdict)
+  # weights up to 32 with the DEFAULT parameters (the clause of the property): must be flagged
+  # (factored or SEVERITY_UNKNOWN); measured beforehand: 120 of 120 flagged at 1024..4096 bits.
+  planted = Planted(rep)
+  try:
+    lhw_res = lhw_async.get(timeout=900)
+  finally:
+    lhw_pool.terminate()
+  for (bits, wt, n), v in zip(lhw_keys, lhw_res):
+    flagged = v.startswith('ok 1')
+    planted.record('lowweight/%dbit/weight%d' % (bits, wt), True, flagged, n)
+
+    def pred(n=n, v=v, wt=wt, flagged=flagged):
+      if not flagged:
+        return 'both primes have Hamming weight %d <= 32 but CheckLowHammingWeight did not flag n=%x (%s)' % (wt, n, v)
+      return None
+    b.add('chk.lhw %s %s %s' % (H(n), H(2500), H(10**6)), v, tag='weight<=32-default:' + v[:8],
+          canon=art.sort_model_verdict, pred=pred, always=True)
   rep.absorb(b, b.run())
 
   # ---------------- CheckContinuedFractions
@@ -279,6 +561,52 @@ def correspondence(rep, rng, tier):
       v = art.fmt_verdict(chk, n)
       b.add('chk.cf %s %s' % (H(n), H(bound)), v, tag=tag.rstrip('0123456789') + ':' + v[:4],
             canon=art.sort_model_verdict)
+  # "both primes repeat words of at most 64 bits" (apart from <= 32 low bits): must be flagged by the
+  # default check (bound 2^48); measured beforehand: 2 881 of 2 881 flagged (2 120 factored).
+  chk = rs.CheckContinuedFractions()
+  wsizes = (1, 3, 5, 8, 13, 16, 24, 31, 32, 48, 63, 64)
+  if tier == 'quick':
+    cplan = [(1024, 64, 64), (1024, 63, 64)] + [(1024, rng.choice(wsizes), rng.choice(wsizes)) for _ in range(8)] + \
+            [(2048, rng.choice(wsizes), rng.choice(wsizes)) for _ in range(2)] + [(4096, 64, rng.choice(wsizes))]
+  else:
+    cplan = [(bits, w1, w2) for bits in (1024, 2048) for w1 in wsizes for w2 in wsizes if w1 <= w2] + \
+            [(bits, rng.choice(wsizes), rng.choice(wsizes)) for bits in (1536, 3072, 4096) for _ in range(6)]
+  for bits, w1, w2 in cplan:
+    t = rng.choice([0, 8, 16, 24, 32, 32])
+    r = gen_rsa.two_pattern_primes(rng, bits, w1, w2, t) or gen_rsa.two_pattern_primes(rng, bits, w1, w2, 32)
+    if r is None:
+      rep.notes.append('no pair of patterned primes for bits=%d w=%d,%d' % (bits, w1, w2))
+      continue
+    n = r[0] * r[1]
+    v = art.fmt_verdict(chk, n)
+    flagged = v.startswith('ok 1')
+    planted.record('twopatterns/%dbit' % bits, True, flagged, n)
+    planted.record('twopatterns-factored/%dbit' % bits, False, bool(verdict_factors(v)), n)
+
+    def pred(n=n, v=v, w1=w1, w2=w2, flagged=flagged):
+      if not flagged:
+        return ('both primes repeat words of %d and %d bits (<= 64) apart from <= 32 low bits but '
+                'CheckContinuedFractions did not flag n=%x (%s)' % (w1, w2, n, v))
+      return None
+    b.add('chk.cf %s %s' % (H(n), H(2**48)), v, tag='twopatterns:' + v[:4], canon=art.sort_model_verdict,
+          pred=pred, always=True)
+  rep.absorb(b, b.run())
+
+  # ---------------- the Lean definitions of the planted shapes == the generators
+  b = Batch('pat')
+  for _ in range(20 if tier == 'quick' else 200):
+    w = rng.choice([1, 2, 3, 5, 7, 8, 13, 16, 31, 64, 127, 255])
+    word = rng.getrandbits(w) % max(1, (1 << w) - 1)
+    bits = rng.choice([0, 1, 7, 64, 100, 512, 1024, 2048])
+    if w == 1:
+      word = 0
+    pat = gen_rsa.periodic_pattern(word, w, bits) if w > 1 else 0
+    b.add('pat.periodic %s %s %s' % (H(word), H(w), H(bits)), H(pat), tag='periodic')
+    ws = rng.choice([1, 8, 16, 32, 64])
+    m_ = rng.choice([0, 1, 2, 4, 8, 16])
+    x = rng.getrandbits(rng.choice([8, 64, 512, 2048]))
+    b.add('pat.swap %s %s %s' % (H(ws), H(m_), H(x)), H(gen_rsa.swap_limbs(x & ((1 << (2 * m_ * ws)) - 1), ws, 2 * m_)),
+          tag='swap')
   rep.absorb(b, b.run())
   rep.extra['families'] = {}
   for t, _, _ in fams:
